@@ -202,6 +202,9 @@ def fixed_size(e, ctx):
         c = e.cls.cls if isinstance(e.cls, ClassV) else e.cls
         if isinstance(c, ClassInfo):
             return class_fixed_size(c, ctx)
+    if k == 't:string':
+        v = e.extra.get('targs', {}).get('value')
+        return len(v) if isinstance(v, str) else None
     return None
 
 
@@ -462,3 +465,53 @@ def dump_canon(c, ctx=None):
                 rec(e.extra['subbody'], ind + 1)
     rec(c.elements, 0)
     return out
+
+
+def min_size(els, ctx, _stack=()):
+    """Lower bound of the number of bytes a layout consumes/produces."""
+    total = 0
+    for e in els:
+        k = e.kind
+        if k in ('u', 'flags', 'ts', 'const'):
+            total += e.w if isinstance(e.w, int) else 0
+        elif k in ('raw', 'mpint'):
+            total += e.size if isinstance(e.size, int) else 0
+            if k == 'raw' and 'subbody' in e.extra and not isinstance(e.size, int):
+                total += min_size(e.extra['subbody'], ctx, _stack)
+        elif k == 'sshmpint':
+            total += 4
+        elif k == 'strz':
+            total += 1
+        elif k == 'nested':
+            c = e.cls.cls if isinstance(e.cls, ClassV) else e.cls
+            if isinstance(c, ClassInfo):
+                total += class_min_size(c, ctx, _stack)
+        elif k in ('alt', 'tryalt'):
+            total += min(min_size(e.a, ctx, _stack), min_size(e.b, ctx, _stack))
+        elif k == 't:string':
+            v = e.extra.get('targs', {}).get('value')
+            total += len(v) if isinstance(v, str) else 0
+    return total
+
+
+def class_min_size(c, ctx, _stack=()):
+    if c in _stack or len(_stack) > 12:
+        return 0
+    if ctx.is_enum_factory(c):
+        return ctx.byte_num(c) or 0
+    if c.is_subclass_of('VariantParsableBase'):
+        from .compare import variant_classes
+        vs = variant_classes(c, ctx)
+        if not vs:
+            return 0
+        return min(class_min_size(v, ctx, _stack + (c,)) for v in vs)
+    f = c.resolve('_parse')
+    if f is None or (f.abstract and ctx.interp.body_only_raises(f)):
+        return 0
+    try:
+        cn = ctx.canon(c, 'parse')
+    except Exception:      # pylint: disable=broad-except
+        return 0
+    if cn is None:
+        return 0
+    return min_size(cn.elements, ctx, _stack + (c,))
